@@ -220,8 +220,29 @@ impl<'a, P: ?Sized + PathImpl> PathMutImpl<'a, P> {
 			buffer.extend_from_slice(segment.as_bytes())
 		}
 
+		// AMBIGUITY: the normalized segments may not be writable as is.
+		//  - If they start with an empty segment, a relative path would become
+		//    absolute, and an absolute path not following an authority would
+		//    start with `//` (read as an authority).
+		//  - If the path is relative, at the very start of the buffer, and its
+		//    first segment now contains a `:`, the text before the colon would
+		//    be read as a scheme.
+		// SOLUTION:  We shield the segments with a leading `./`.
+		let shield: &[u8] = if (buffer.starts_with(b"/")
+			&& (self.is_relative() || !self.follows_authority))
+			|| (self.is_relative() && self.start == 0 && parse::first_segment_has_colon(&buffer))
+		{
+			b"./"
+		} else {
+			b""
+		};
+
 		let start = self.first_segment_offset();
-		replace(self.buffer, start..self.end, &buffer);
-		self.end = start + buffer.len();
+		let content_start = start + shield.len();
+		let len = shield.len() + buffer.len();
+		allocate_range(self.buffer, start..self.end, len);
+		self.buffer[start..content_start].copy_from_slice(shield);
+		self.buffer[content_start..(start + len)].copy_from_slice(&buffer);
+		self.end = start + len;
 	}
 }
